@@ -5,7 +5,7 @@ Confirms: (1) the demo passes on the unchanged tree, (2) with the patch the work
 touches still build and their existing tests give the baseline result, (3) the demo fails."""
 import json, os, re, shutil, subprocess, sys
 seed, sid = sys.argv[1].rstrip('/'), sys.argv[2]
-W, T = '/tmp/wconf', '/tmp/w1-target'
+W, T = os.environ.get('SEED_W', '/tmp/wconf'), os.environ.get('SEED_T', '/tmp/seed/base-target')
 CRATE = {'canister': 'ic-btc-canister', 'validation': 'ic-btc-validation', 'watchdog': 'watchdog', 'interface': 'ic-btc-interface',
          'ic-cdk-bitcoin-canister': 'ic-cdk-bitcoin-canister', 'types': 'ic-btc-types', 'ic-http': 'ic-http'}
 ALWAYS_FAIL = {'tests::mainnet_100k_blocks', 'tests::testnet_10k_blocks', 'header::tests::mainnet_next_targets', 'header::tests::testnet_next_targets'}
